@@ -244,134 +244,143 @@ Print Assumptions C01_watch_nonvacuous.
 (* ======================= all layers composed =======================
    registry (this property) -> route commands (C14: Model/RouteCmd.v [build]) -> table (C05:
    Model/RouteText.v [new_table]).  A catalog entry is C14's [reg] plus its node; the commands
-   Model/Consul.v's config generation carries for it are C14's [build] of the entry.
-   [isp], [pw], [canon], [gl] stand for strconv.IsPrint, strconv.ParseFloat, url.Parse and
-   glob.Compile as in C14; the theorems hold whatever these libraries answer. *)
+   Model/Consul.v's config generation carries for it are C14's [build] of the entry, which since
+   /repo d16ce3d keeps a command only if route.NewTable accepts it on its own ([emitted]).
+   [pw], [canon], [gl] stand for strconv.ParseFloat, url.Parse and glob.Compile as in C14 / C05;
+   the theorems hold whatever these libraries answer, and for ALL catalogs: a registration that
+   cannot be expressed no longer blocks the table, it is dropped on its own.
 
-(* (1) the lines of the pushed config are, in order, C14's rendered intents of the entries
-   serviceConfig selects; the model's own count check never fires *)
-Theorem C01_config_lines_are_built_commands : forall isp env prefix rcat passing,
-  config_lines prefix (catalog_of isp env prefix rcat) passing =
-  Ok (map (render_intent isp)
-          (flat_map (fun r => intents env prefix (r_reg r)) (selected rcat (group passing)))).
+   [routed_intent ... i]: some catalog entry with a non-empty service name is [inst_healthy]
+   in the state, advertises [i] (one of its routing tags stands for [i]) and [i]'s command is
+   emitted.  [table_holds ... dm t]: (a) every routed intent's command parses to a definition
+   whose target is in [t] under (lower-cased host, path); (b) for an [intent_expressible]
+   intent of a healthy instance that is the target the registration stands for (service,
+   destination URL, weight, tags: [has_target]); (c) every manual definition in [dm] has its
+   target; (d) every target of [t] is one of (a) or (c). *)
+
+(* (1) the lines of the pushed config are, in order, C14's rendered commands of the validated
+   intents of the entries serviceConfig selects; the model's own count check never fires *)
+Theorem C01_config_lines_are_built_commands : forall pw canon gl env prefix rcat passing,
+  config_lines prefix (catalog_of pw canon gl env prefix rcat) passing =
+  Ok (map render_intent
+          (flat_map (fun r => vintents pw canon gl env prefix (r_reg r)) (selected rcat (group passing)))).
 Proof. exact config_lines_struct. Qed.
 Print Assumptions C01_config_lines_are_built_commands.
 
-(* (2) the headline, unbounded registry states.  Hypotheses: Consul reports the instance's tags
-   on its checks ([consistent]); the healthy entries are C14-[expressible].  Then the pushed config is accepted by NewTable and the table
-   has a target (service, lower-cased host, path, destination, weight, tags) for an instance
-   and prefix IF AND ONLY IF the instance is healthy and advertises the prefix. *)
-Theorem C01_svc_table_iff : forall isp pw canon gl env prefix status strict checks rcat,
+(* (2) the headline, for every registry state whose checks carry their instance's tags
+   ([consistent], Consul's guarantee) - no condition on the catalog: the pushed config is
+   accepted by NewTable and the table has a target for an instance and prefix IF AND ONLY IF the
+   instance is healthy, advertises the prefix and the command validates. *)
+Theorem C01_svc_table_iff : forall pw canon gl env prefix status strict checks rcat,
   consistent checks rcat ->
-  (forall r, In r rcat -> inst_healthy status strict checks r ->
-             expressible isp pw canon gl env prefix (r_reg r) = true) ->
   exists text t,
-    registry_config isp env prefix status strict checks rcat = Ok text
+    registry_config pw canon gl env prefix status strict checks rcat = Ok text
     /\ new_table pw canon gl text = Ok t
-    /\ (forall r i, In r rcat -> inst_healthy status strict checks r -> advertises_intent env prefix r i ->
-                    has_target pw canon prefix t r i)
-    /\ (forall x, In x (flat t) ->
-           exists r i d url, In r rcat /\ inst_healthy status strict checks r /\ advertises_intent env prefix r i
-                             /\ intent_def pw i = Ok d /\ canon (i_dst i) = Some url /\ x = trip d url).
+    /\ table_holds pw canon gl env prefix status strict checks rcat [] t.
 Proof. exact svc_table_iff. Qed.
 Print Assumptions C01_svc_table_iff.
 
+(* what [table_holds] says, spelled out (so that the statement above can be read without
+   Proofs/RegistryTable.v) *)
+Theorem C01_table_holds_unfold : forall pw canon gl env prefix status strict checks rcat dm t,
+  table_holds pw canon gl env prefix status strict checks rcat dm t <->
+  (forall i, routed_intent pw canon gl env prefix status strict checks rcat i ->
+             exists d, parse_line pw (render_intent i) = Ok (Some d) /\ def_target canon t d)
+  /\ (forall r i, In r rcat -> inst_healthy status strict checks r -> advertises_intent env prefix r i ->
+                  intent_expressible pw canon gl i = true -> has_target pw canon prefix t r i)
+  /\ (forall d, In d dm -> def_target canon t d)
+  /\ (forall x, In x (flat t) ->
+         (exists i d url, routed_intent pw canon gl env prefix status strict checks rcat i
+                          /\ parse_line pw (render_intent i) = Ok (Some d)
+                          /\ canon (d_dst d) = Some url /\ x = trip d url)
+         \/ (exists d url, In d dm /\ canon (d_dst d) = Some url /\ x = trip d url)).
+Proof. exact table_holds_unfold. Qed.
+Print Assumptions C01_table_holds_unfold.
+
+Theorem C01_routed_intent_unfold : forall pw canon gl env prefix status strict checks rcat i,
+  routed_intent pw canon gl env prefix status strict checks rcat i <->
+  exists r, In r rcat /\ g_name (r_reg r) <> [] /\ inst_healthy status strict checks r
+            /\ advertises_intent env prefix r i /\ emitted pw canon gl i.
+Proof. exact routed_intent_unfold. Qed.
+Print Assumptions C01_routed_intent_unfold.
+
+(* an expressible registration of a healthy instance is always routed (never dropped) *)
+Theorem C01_expressible_is_routed : forall pw canon gl env prefix status strict checks rcat r i,
+  In r rcat -> inst_healthy status strict checks r -> advertises_intent env prefix r i ->
+  intent_expressible pw canon gl i = true ->
+  routed_intent pw canon gl env prefix status strict checks rcat i.
+Proof. exact expressible_routed. Qed.
+Print Assumptions C01_expressible_is_routed.
+
 (* ... with the operator's route commands applied on top, for manual texts made of acceptable
    'route add' commands: nothing but the healthy instances' and the operator's targets *)
-Theorem C01_svc_table_with_manual_adds : forall isp pw canon gl env prefix status strict checks rcat,
+Theorem C01_svc_table_with_manual_adds : forall pw canon gl env prefix status strict checks rcat,
   consistent checks rcat ->
-  (forall r, In r rcat -> inst_healthy status strict checks r ->
-             expressible isp pw canon gl env prefix (r_reg r) = true) ->
   forall m dm, parse pw m = Ok dm -> Forall (addable canon gl) dm ->
   exists text t,
-    registry_config isp env prefix status strict checks rcat = Ok text
+    registry_config pw canon gl env prefix status strict checks rcat = Ok text
     /\ new_table pw canon gl (next_text text m) = Ok t
-    /\ (forall r i, In r rcat -> inst_healthy status strict checks r -> advertises_intent env prefix r i ->
-                    has_target pw canon prefix t r i)
-    /\ (forall d, In d dm -> exists url tg, canon (d_dst d) = Some url
-           /\ In (lower (fst (hostpath (d_src d))), snd (hostpath (d_src d)), tg) (flat t)
-           /\ same_target (d_svc d) url (w_clamp (d_w d)) (d_tags d) tg = true)
-    /\ (forall x, In x (flat t) ->
-           (exists r i d url, In r rcat /\ inst_healthy status strict checks r /\ advertises_intent env prefix r i
-                              /\ intent_def pw i = Ok d /\ canon (i_dst i) = Some url /\ x = trip d url)
-           \/ (exists d url, In d dm /\ canon (d_dst d) = Some url /\ x = trip d url)).
+    /\ table_holds pw canon gl env prefix status strict checks rcat dm t.
 Proof. exact svc_table_with_manual. Qed.
 Print Assumptions C01_svc_table_with_manual_adds.
 
 (* (3) the watch loop with route.NewTable as its builder.  Quiescence, concrete: after ANY
    history of deliveries whose last service text is the config of registry state (checks, rcat)
    and whose last manual text is empty, the ACTIVE table has a target for (instance, prefix)
-   iff the instance is healthy in that state and advertises the prefix. *)
-Theorem C01_active_table_iff : forall isp pw canon gl env prefix status strict checks rcat,
+   iff the instance is healthy in that state, advertises the prefix and the command validates. *)
+Theorem C01_active_table_iff : forall pw canon gl env prefix status strict checks rcat,
   consistent checks rcat ->
-  (forall r, In r rcat -> inst_healthy status strict checks r ->
-             expressible isp pw canon gl env prefix (r_reg r) = true) ->
   forall (w : wstate table) h e,
   inv table (table_builder pw canon gl) w ->
-  registry_config isp env prefix status strict checks rcat = Ok (last_svc (h ++ [e]) (w_svc w)) ->
+  registry_config pw canon gl env prefix status strict checks rcat = Ok (last_svc (h ++ [e]) (w_svc w)) ->
   last_man (h ++ [e]) (w_man w) = [] ->
-  let t := w_active (Watch.run table (table_builder pw canon gl) w (h ++ [e])) in
-  (forall r i, In r rcat -> inst_healthy status strict checks r -> advertises_intent env prefix r i ->
-               has_target pw canon prefix t r i)
-  /\ (forall x, In x (flat t) ->
-         exists r i d url, In r rcat /\ inst_healthy status strict checks r /\ advertises_intent env prefix r i
-                           /\ intent_def pw i = Ok d /\ canon (i_dst i) = Some url /\ x = trip d url).
+  table_holds pw canon gl env prefix status strict checks rcat []
+              (w_active (Watch.run table (table_builder pw canon gl) w (h ++ [e]))).
 Proof. exact active_table_iff. Qed.
 Print Assumptions C01_active_table_iff.
 
 (* ... and with a last manual text of acceptable 'route add' commands *)
-Theorem C01_active_table_with_manual_adds : forall isp pw canon gl env prefix status strict checks rcat,
+Theorem C01_active_table_with_manual_adds : forall pw canon gl env prefix status strict checks rcat,
   consistent checks rcat ->
-  (forall r, In r rcat -> inst_healthy status strict checks r ->
-             expressible isp pw canon gl env prefix (r_reg r) = true) ->
   forall (w : wstate table) h e m dm,
   inv table (table_builder pw canon gl) w ->
-  registry_config isp env prefix status strict checks rcat = Ok (last_svc (h ++ [e]) (w_svc w)) ->
+  registry_config pw canon gl env prefix status strict checks rcat = Ok (last_svc (h ++ [e]) (w_svc w)) ->
   last_man (h ++ [e]) (w_man w) = m ->
   parse pw m = Ok dm -> Forall (addable canon gl) dm ->
-  let t := w_active (Watch.run table (table_builder pw canon gl) w (h ++ [e])) in
-  (forall r i, In r rcat -> inst_healthy status strict checks r -> advertises_intent env prefix r i ->
-               has_target pw canon prefix t r i)
-  /\ (forall d, In d dm -> exists url tg, canon (d_dst d) = Some url
-         /\ In (lower (fst (hostpath (d_src d))), snd (hostpath (d_src d)), tg) (flat t)
-         /\ same_target (d_svc d) url (w_clamp (d_w d)) (d_tags d) tg = true)
-  /\ (forall x, In x (flat t) ->
-         (exists r i d url, In r rcat /\ inst_healthy status strict checks r /\ advertises_intent env prefix r i
-                            /\ intent_def pw i = Ok d /\ canon (i_dst i) = Some url /\ x = trip d url)
-         \/ (exists d url, In d dm /\ canon (d_dst d) = Some url /\ x = trip d url)).
+  table_holds pw canon gl env prefix status strict checks rcat dm
+              (w_active (Watch.run table (table_builder pw canon gl) w (h ++ [e]))).
 Proof. exact active_table_with_manual. Qed.
 Print Assumptions C01_active_table_with_manual_adds.
 
 (* An instance that has become unhealthy is absent from every TABLE installed after that state
    was observed (until a newer service config arrives): each such table is NewTable of that
    state's config plus a manual text, and for manual texts of acceptable 'route add' commands
-   every one of its targets belongs to an instance healthy in that state or to a manual command. *)
-Theorem C01_unhealthy_absent_table : forall isp pw canon gl env prefix status strict checks rcat,
+   it holds exactly the routed intents' targets of that state and the manual ones. *)
+Theorem C01_unhealthy_absent_table : forall pw canon gl env prefix status strict checks rcat,
   consistent checks rcat ->
-  (forall r, In r rcat -> inst_healthy status strict checks r ->
-             expressible isp pw canon gl env prefix (r_reg r) = true) ->
   forall (w : wstate table) text h1 h2 tt,
-  registry_config isp env prefix status strict checks rcat = Ok text ->
+  registry_config pw canon gl env prefix status strict checks rcat = Ok text ->
   forallb is_man h2 = true ->
   In tt (installs table (table_builder pw canon gl) w (h1 ++ Svc text :: h2)) ->
   In tt (installs table (table_builder pw canon gl) w h1) \/
   exists m T, tt = next_text text m /\ new_table pw canon gl tt = Ok T /\
     forall dm, parse pw m = Ok dm -> Forall (addable canon gl) dm ->
-      forall x, In x (flat T) ->
-        (exists r i d url, In r rcat /\ inst_healthy status strict checks r /\ advertises_intent env prefix r i
-                           /\ intent_def pw i = Ok d /\ canon (i_dst i) = Some url /\ x = trip d url)
-        \/ (exists d url, In d dm /\ canon (d_dst d) = Some url /\ x = trip d url).
+               table_holds pw canon gl env prefix status strict checks rcat dm T.
 Proof. exact unhealthy_absent_table. Qed.
 Print Assumptions C01_unhealthy_absent_table.
 
-(* the hypotheses are met by a concrete state (two instances of one service, one critical, a
-   blank-padded routing tag, an upper-case host): only the healthy one is in the table *)
+(* a concrete state: two instances of one service, one critical, a blank-padded routing tag, an
+   upper-case host, and a third HEALTHY instance whose registration cannot be expressed (a tag
+   with a double quote): only the healthy expressible one is in the table; the inexpressible
+   one is dropped on its own and blocks nothing *)
 Theorem C01_registry_table_nonvacuous :
   consistent ex_checks ex_rcat
-  /\ (forall r, In r ex_rcat -> expressible all_print pweight_dec idcanon anyglob env_dc pfx (r_reg r) = true)
+  /\ expressible pweight_dec idcanon anyglob env_dc pfx (ex_reg "s1" "10.0.0.1") = true
+  /\ expressible pweight_dec idcanon anyglob env_dc pfx ex_bad_reg = false
   /\ inst_healthy [bs "passing"] false ex_checks (mkREntry (bs "n1") (ex_reg "s1" "10.0.0.1"))
   /\ ~ inst_healthy [bs "passing"] false ex_checks (mkREntry (bs "n2") (ex_reg "s2" "10.0.0.2"))
-  /\ exists t, (do text <- registry_config all_print env_dc pfx [bs "passing"] false ex_checks ex_rcat;
+  /\ inst_healthy [bs "passing"] false ex_checks (mkREntry (bs "n3") ex_bad_reg)
+  /\ exists t, (do text <- registry_config pweight_dec idcanon anyglob env_dc pfx [bs "passing"] false ex_checks ex_rcat;
                 new_table pweight_dec idcanon anyglob text)%outcome = Ok t
        /\ map (fun x => (fst (fst x), snd (fst x), t_url (snd x))) (flat t)
           = [(bs "foo.com", bs "/good", bs "http://10.0.0.1:80/"); ([], bs "/two", bs "http://10.0.0.1:80/")].
